@@ -4,7 +4,7 @@ rotation      R_a(t)    = exp(-i t sigma_a / 2) = cos(t/2) I - i sin(t/2) sigma_
 ctrl-rotation crot_a(t) = |0><0| (x) R_a(t) + |1><1| (x) R_a(-t)      (first operand = control)
 angle(n, d)   = n * pi / 2**d
 Qubit 0 of an n-qubit register is the most significant tensor factor.
-Bell states (qlink_compat.BellState): 0 Phi+ = |00>+|11>, 1 Phi- = |00>-|11>, 2 Psi+ = |01>+|10>, 3 Psi- = |01>-|10>
+Bell states (qlink_compat.BellState): 0 Phi+ = |00>+|11>, 1 Psi+ = |01>+|10>, 2 Psi- = |01>-|10>, 3 Phi- = |00>-|11>
 """
 from __future__ import annotations
 
@@ -94,9 +94,9 @@ def phase_distance(A: np.ndarray, B: np.ndarray) -> float:
 
 BELL_VECS = {
     0: np.array([1, 0, 0, 1], dtype=complex) / math.sqrt(2),
-    1: np.array([1, 0, 0, -1], dtype=complex) / math.sqrt(2),
-    2: np.array([0, 1, 1, 0], dtype=complex) / math.sqrt(2),
-    3: np.array([0, 1, -1, 0], dtype=complex) / math.sqrt(2),
+    1: np.array([0, 1, 1, 0], dtype=complex) / math.sqrt(2),
+    2: np.array([0, 1, -1, 0], dtype=complex) / math.sqrt(2),
+    3: np.array([1, 0, 0, -1], dtype=complex) / math.sqrt(2),
 }
 
 
